@@ -440,11 +440,12 @@ impl Gen {
                 s
             }
             6 => {
-                // 26 items
+                // too many items: just above the cap, and around the places where a narrow counter would wrap
                 s.native.clear();
                 s.cw20.clear();
                 s.nfts.clear();
-                for i in 0..26 {
+                let n = *self.rng.pick(&[26usize, 26, 27, 40, 255, 256, 257, 281, 282, 300, 512, 65_536 + 3]);
+                for i in 0..n {
                     s.native.push((format!("udenom{i}"), 1 + i as u128));
                 }
                 s
@@ -455,9 +456,10 @@ impl Gen {
                 s
             }
             _ => {
-                // 26 items of mixed kinds
+                // too many items of mixed kinds
                 let mut i = 0;
-                while s.len() < 26 {
+                let n = *self.rng.pick(&[26usize, 26, 30, 256, 260, 281]);
+                while s.len() < n {
                     s.nfts.push((names.colls[0].clone(), format!("x{i}")));
                     i += 1;
                 }
